@@ -6,8 +6,12 @@ import itertools, vlib, tscen, p_c07
 from tscen import *
 
 
+ALWAYS = []      # scenarios every tier runs (not sampled)
+
+
 def scenarios(quick):
     out = []
+    del ALWAYS[:]
     stacks = [lambda m, w: [bh("b", m, wait=w)], lambda m, w: [retry(1, dly=1), bh("b", m, wait=w)], lambda m, w: [to(3), bh("b", m, wait=w)],
               lambda m, w: [bh("b", m, wait=w), to(3)], lambda m, w: [fb(), bh("b", m, wait=w)], lambda m, w: [hg(1, 2), bh("b", m, wait=w)],
               # a policy between the bulkhead and the function that reports a cancellation (outer timeout / async Cancel): the permit still comes back
@@ -25,7 +29,7 @@ def scenarios(quick):
                                 # a permit that comes back on the very instant a waiter's max wait runs out (many steps on one
                                 # instant make the validation search expensive: the bulkhead alone, no further variants)
                                 if len(st) == 1 and w == 3:
-                                    out.append(scenario(st, fns, base))
+                                    ALWAYS.append(scenario(st, fns, base))
                                 continue
                             out.append(scenario(st, fns, base))
                             for ct in ((1, 3) if quick else (0, 1, 2, 3, 4)):
@@ -72,9 +76,9 @@ def run(ctx):
     tmc.model_check(ctx, "bh", model_scenarios(), ["MC_NoStuckThread", "MC_AllReturn", "MC_C06", "MC_Conservation"])
     scs = scenarios(ctx.tier == "quick")
     if ctx.tier == "quick":      # several concurrent executions make validation expensive: every 9th scenario, offset by the seed
-        scs = scs[ctx.seed % 9::9] + scs[-6:]
+        scs = scs[ctx.seed % 9::9] + scs[-6:] + ALWAYS
     else:                        # thorough: every third scenario of the full grid (about 2.6 k traces of three executions each)
-        scs = scs[ctx.seed % 3::3] + scs[-6:]
+        scs = scs[ctx.seed % 3::3] + scs[-6:] + ALWAYS
     p_c07.run_family(ctx, "bh", scs, props=("C06",))
     # permits taken through the standalone API before the run, successive executions, every nesting of depth <= 2 around the bulkhead
     import seq
